@@ -48,17 +48,28 @@ let () =
         let general = (vs.[1] = 'V' || vs.[1] = 'W') in   (* W: judged by the check script itself, see harness *)
         let sentn = n_of_int (int_of_string sent) in
         (* the model registers the players in the order of the case (BuildOrder.lt_build_order) *)
-        let tr = if general then run_goN rev v sentn order seqs else run_oN rev v sentn order seqs in
+        let run sq = if general then run_goN rev v sentn order sq else run_oN rev v sentn order sq in
+        let chk sq t = if general then (if rev then check_gNgt v sentn sq t else check_gN v sentn sq t)
+                       else (if rev then check_Ngt v sq t else check_N v sq t) in
+        (* extra bit 8: the tree object is used twice; second use: player i gets the sequence of player i+1 (cyclically).
+           The model makes two fresh runs. *)
+        let extra = (match parts with [_; _; _; _; _; e] -> (try int_of_string e with _ -> 0) | _ -> 0) in
+        let reuse = extra land 8 <> 0 in
+        let seqs2 = (match seqs with [] -> [] | h :: t -> t @ [h]) in
+        let show tr = String.concat " " (List.map show_src tr) in
         let b = Buffer.create 64 in
-        Buffer.add_string b (String.concat " " (List.map show_src tr));
+        Buffer.add_string b (show (run seqs));
+        if reuse then Buffer.add_string b (" | " ^ show (run seqs2));
         (match il with
          | None -> ()
          | Some l ->
            let verdict =
              try
-               let t = List.map parse_src (List.filter (fun s -> s <> "") (String.split_on_char ' ' l)) in
-               if (if general then (if rev then check_gNgt v sentn seqs t else check_gN v sentn seqs t)
-                   else (if rev then check_Ngt v seqs t else check_N v seqs t)) then "ok" else "BAD"
+               let parse_tr x = List.map parse_src (List.filter (fun s -> s <> "") (String.split_on_char ' ' x)) in
+               (match String.split_on_char '|' l with
+                | [t1] when not reuse -> if chk seqs (parse_tr t1) then "ok" else "BAD"
+                | [t1; t2] when reuse -> if chk seqs (parse_tr t1) && chk seqs2 (parse_tr t2) then "ok" else "BAD"
+                | _ -> "BAD")
              with _ -> "PARSE" in
            Buffer.add_string b (" ; chk=" ^ verdict));
         print_endline (Buffer.contents b)
